@@ -601,11 +601,12 @@ func main() {
 	c := e.ctr
 	exhaustive := !e.timedOut.Load() && !e.stop.Load() && c.NotExecuted == 0
 	if run.NumViolations() == 0 && len(e.harnessErrs) == 0 && !e.timedOut.Load() {
-		if c.SideChecks < 1000 || c.BuiltinPairs < 1000 || c.StarChecks < 100 || c.ReplacePos < 50 || c.RemoveExisting < 50 || c.ReRegistered < 50 || c.Errors < 10 || hc['O'] < 100 || c.StubsFired < 1000 || c.FreshChecks < 10 {
+		if c.SideChecks < 1000 || c.BuiltinPairs < 1000 || c.StarChecks < 100 || c.ReplacePos < 50 || c.RemoveExisting < 50 || c.ReRegistered < 50 || c.DupRegistrations < 50 || c.Errors < 10 || hc['O'] < 100 || c.StubsFired < 1000 || c.FreshChecks < 10 {
 			run.HarnessError("vacuous run: side checks %d, built-in pairs %d, star checks %d, replace position checks %d, removes %d, re-registrations %d, errors %d, distinct outcomes %d, stub firings %d, fresh cross-checks %d", c.SideChecks, c.BuiltinPairs, c.StarChecks, c.ReplacePos, c.RemoveExisting, c.ReRegistered, c.Errors, hc['O'], c.StubsFired, c.FreshChecks)
 		}
 	}
-	run.Assume("outside the alphabet: registering a name that is currently registered without Replace (duplicate), Before/After combined with Replace, callbacks named \"*\", Match() on user callbacks")
+	run.Assume("registering a registered name again without Replace (gorm warns 'duplicated callback'; once per name, plain Register(n) only): for that name any of its registered handlers may fire (one, or two different ones) and constraints involving the name are not checked; every other callback is checked as usual")
+	run.Assume("outside the alphabet: a third registration of the same name, a duplicate registration that carries Before/After, Before/After combined with Replace, callbacks named \"*\", Match() on user callbacks")
 	run.Assume("u1,u2,u3 are interchangeable fresh names: only sequences that introduce them in the order u1,u2,u3 are run (gorm's sorter only compares names for equality)")
 	run.Assume("Before(\"*\")/After(\"*\") is read as: ahead of (behind) every callback that is not itself Before(\"*\") (After(\"*\")) and is not required by a named constraint or the built-in order to precede (follow) such a callback")
 	run.Assume("registrations that contradict each other under the literal reading of \"*\" (one callback Before(\"*\") and After(\"*\"); \"*\" on one side and a registered name on the other; a callback required to follow an After(\"*\") callback or to precede a Before(\"*\") callback) are accepted by gorm without a defined order (its own tests use Before(x).After(\"*\")): for them the \"*\" part of the oracle is not evaluated, everything else is")
@@ -625,7 +626,7 @@ func main() {
 		"distinct_observed_outcomes":    hc['O'],
 		"states_expanded":               expanded,
 		"frontier_sizes":                levels,
-		"rule":                          fmt.Sprintf("breadth-first search from 12 initial states (6 pipelines x {pristine, every built-in Replace'd by a stub}); operations Register/Before/After/Before+After/Replace/Remove with names over all built-ins of the pipeline, u1..u3, zz (never registered) and \"*\"; every sequence up to length %d over the full alphabet, up to length %d over the reduced alphabet (%s); states de-duplicated on gorm's registered callback list + compiled order + the reference model's current registrations; distinct_nontrivial = distinct (pipeline, initial state, compiled order or error) outcomes", e.tier.fullDepth, e.tier.redDepth, e.tier.redDesc),
+		"rule":                          fmt.Sprintf("breadth-first search from 12 initial states (6 pipelines x {pristine, every built-in Replace'd by a stub}); operations Register/Before/After/Before+After/Replace/Remove (incl. one duplicate Register per registered name) with names over all built-ins of the pipeline, u1..u3, zz (never registered) and \"*\"; every sequence up to length %d over the full alphabet, up to length %d over the reduced alphabet (%s); states de-duplicated on gorm's registered callback list + compiled order + the reference model's current registrations; distinct_nontrivial = distinct (pipeline, initial state, compiled order or error) outcomes", e.tier.fullDepth, e.tier.redDepth, e.tier.redDesc),
 		"samples":                       e.samples.List(),
 		"exhaustive":                    exhaustive,
 		"exhaustive_note":               fmt.Sprintf("inputs whose Before/After constraints contain a cycle are executed only until %d worker processes per (pipeline, initial state) have been killed by them (known defect: fatal stack overflow in sortCallbacks); %d such inputs were not executed in this run; everything else inside the bound was executed", e.budget, c.NotExecuted),
